@@ -9,7 +9,7 @@ RULE = (
     "stop sets x 4 filter sets (quick n<=5); random trees with hostile names, custom nodenamefunc/nodefunc/edgefunc, options, indent, to_file; distinct = hash of the configuration"
 )
 ASSUMPTIONS = ["the order of edge lines among themselves is not part of the statement and is not checked"]
-GATES = ["mon.C13.export", "C13.edges_checked", "C13.maxlevel0", "C13.stop_and_filter", "C13.hostile_names", "C13.custom", "C13.to_file", "C13.predicate_change", "C13.value_semantics_nodes", "C13.attribute_reassigned", "C13.tree_changed_between_iterations", "C13.aborted_iteration_then_reuse"]
+GATES = ["mon.C13.export", "C13.edges_checked", "C13.maxlevel0", "C13.stop_and_filter", "C13.hostile_names", "C13.custom", "C13.to_file", "C13.predicate_change", "C13.value_semantics_nodes", "C13.attribute_reassigned", "C13.tree_changed_between_iterations", "C13.aborted_iteration_then_reuse", "C13.falsy_nodes"]
 
 
 def plan(tier, seed, jobs):
@@ -62,6 +62,9 @@ def run(ctx):
         valsem = rng.random() < 0.3
         if valsem:
             ctx.count("C13.value_semantics_nodes")
+        elif rng.random() < 0.3:
+            valsem = "falsy"
+            ctx.count("C13.falsy_nodes")
         nodes = G.build(par, names, valsem)
         idmap = {id(o): i for i, o in enumerate(nodes)}
         case = {"par": list(par), "names": names, "value_semantics": valsem}
